@@ -562,7 +562,15 @@ impl<'r, 'a> Collector<'r, 'a> {
         } else if let Some(w) = wrap {
             match iter_expr {
                 Some(e) => {
-                    let r = rng(e);
+                    // `for x in B.iter()` -> `for x in W(&(B))`; `for x in E` -> `for x in W(&(E))`
+                    let r = match is_method(e, "iter") {
+                        Some(it) if it.args.is_empty() => {
+                            let rr = rng(&*it.receiver);
+                            self.edits.push(Edit { range: rr.end..rng(e).end, text: String::new(), prio: 1 });
+                            rr
+                        }
+                        _ => rng(e),
+                    };
                     self.edits.push(Edit { range: r.start..r.start, text: format!("{w}(&("), prio: 0 });
                     self.edits.push(Edit { range: r.end..r.end, text: "))".to_string(), prio: 0 });
                     self.rw.log.push(format!("R8 loop {key}: iterate over {w}(..)"));
@@ -929,6 +937,51 @@ impl<'ast, 'r, 'a> Visit<'ast> for Collector<'r, 'a> {
                 self.rw.log.push("R46 stand-in iterator .collect() -> the vector itself".to_string());
                 self.edits.push(Edit { range: rng(e), text: recv, prio: 0 });
             }
+            // R51: `StateId::try_from(X).unwrap()` -> `__stateid_from_u32(X)` (the stand-in takes a u32, so the
+            // rewritten text only compiles when X is a u32: the reflexive, infallible conversion)
+            syn::Expr::MethodCall(m)
+                if self.rw.on("R51") && m.method == "unwrap" && m.args.is_empty()
+                    && matches!(&*m.receiver, syn::Expr::Call(c) if c.args.len() == 1 && norm(self.rw.text(&*c.func)) == "StateId::try_from") =>
+            {
+                let c = match &*m.receiver { syn::Expr::Call(c) => c, _ => unreachable!() };
+                let x = self.render(&c.args[0]);
+                self.rw.log.push("R51 StateId::try_from(X).unwrap() -> __stateid_from_u32(X)".to_string());
+                self.edits.push(Edit { range: rng(e), text: format!("__stateid_from_u32({x})"), prio: 0 });
+            }
+            // R47s: M.entry(K).or_default().insert(A)  ->  { __entry_or_default_set(&mut M, K); __entry_insert_set(&mut M, K, A) }
+            // (a map of bitmaps; M a plain variable; K a variable or a field of one)
+            syn::Expr::MethodCall(m)
+                if m.method == "insert" && self.rw.on("R47s") && m.args.len() == 1
+                    && is_method(&m.receiver, "or_default").map_or(false, |od| od.args.is_empty() && is_method(&od.receiver, "entry").map_or(false, |en| en.args.len() == 1 && matches!(&*en.receiver, syn::Expr::Path(_)))) =>
+            {
+                let od = is_method(&m.receiver, "or_default").unwrap();
+                let en = is_method(&od.receiver, "entry").unwrap();
+                let pure = match &en.args[0] {
+                    syn::Expr::Path(_) => true,
+                    syn::Expr::Field(f) => matches!(&*f.base, syn::Expr::Path(_)),
+                    _ => false,
+                };
+                if !pure {
+                    die("unsupported", &format!("{}: R47s side condition: the entry key is not a variable or a field of one", self.rw.fn_path));
+                }
+                let mp = self.render(&en.receiver);
+                let k = self.render(&en.args[0]);
+                let a = self.render(&m.args[0]);
+                self.rw.log.push("R47s M.entry(K).or_default().insert(A) -> __entry_or_default_set; __entry_insert_set".to_string());
+                self.edits.push(Edit { range: rng(e), text: format!("{{ __entry_or_default_set(&mut {mp}, {k}); __entry_insert_set(&mut {mp}, {k}, {a}) }}"), prio: 0 });
+            }
+            // R49: [A, B(, C)].difference() / .intersection() (roaring::MultiOps on an array of bitmap references)
+            //   -> __rb_difference2(A, B) / __rb_difference3(A, B, C) / __rb_intersection2(A, B)
+            syn::Expr::MethodCall(m)
+                if self.rw.on("R49") && (m.method == "difference" || m.method == "intersection") && m.args.is_empty()
+                    && matches!(&*m.receiver, syn::Expr::Array(a) if a.elems.len() == 2 || a.elems.len() == 3) =>
+            {
+                let arr = match &*m.receiver { syn::Expr::Array(a) => a, _ => unreachable!() };
+                let parts: Vec<String> = arr.elems.iter().map(|x| self.render(x)).collect();
+                let f = format!("__rb_{}{}", m.method, parts.len());
+                self.rw.log.push(format!("R49 [..; {}].{}() -> {f}", parts.len(), m.method));
+                self.edits.push(Edit { range: rng(e), text: format!("{f}({})", parts.join(", ")), prio: 0 });
+            }
             // R47: M.entry(K).or_default().insert(A, B)  ->  { __entry_or_default(&mut M, K); __entry_insert(&mut M, K, A, B) }
             // (M a plain variable; K a variable or a field of one, so that evaluating it twice is harmless)
             syn::Expr::MethodCall(m)
@@ -1146,8 +1199,9 @@ impl<'ast, 'r, 'a> Visit<'ast> for Collector<'r, 'a> {
                     edits.append(&mut self.rw.take_stmt_edits(&r));
                     apply_edits(self.rw.src, r, edits)
                 };
-                self.rw.log.push(format!("R29 loop {key}: while let {pat} = {set}.iter().next() -> loop + __set_first"));
-                self.edits.push(Edit { range: rng(e), text: format!("loop {hdr}{{ match __set_first(&{set}) {{ {pat} => {{ {bs}{body}{be} }} None => {{ break; }} }} }}"), prio: 0 });
+                let first = if self.rw.on("R29i") { "__idset_first" } else { "__set_first" };
+                self.rw.log.push(format!("R29 loop {key}: while let {pat} = {set}.iter().next() -> loop + {first}"));
+                self.edits.push(Edit { range: rng(e), text: format!("loop {hdr}{{ match {first}(&{set}) {{ {pat} => {{ {bs}{body}{be} }} None => {{ break; }} }} }}"), prio: 0 });
             }
             // R30 (use site): `r.insert(A, B)` for an alias r recorded above
             syn::Expr::MethodCall(m)
@@ -1257,6 +1311,33 @@ impl<'ast, 'r, 'a> Visit<'ast> for Collector<'r, 'a> {
                                 }
                             }
                         }
+                    }
+                }
+                // R50: `for X in [A, B, ..] { BODY }` (array literal, X a plain name, no break / continue in BODY)
+                //   -> `{ let X = A; BODY } { let X = B; BODY } ..`
+                if self.rw.on("R50") {
+                    if let (syn::Expr::Array(arr), syn::Pat::Ident(pi)) = (&*f.expr, &*f.pat) {
+                        if closure_has_control_flow(&syn::Expr::Block(syn::ExprBlock { attrs: vec![], label: None, block: f.body.clone() })) {
+                            die("unsupported", &format!("{}: R50 side condition: control flow in the body of a loop over an array literal", self.rw.fn_path));
+                        }
+                        let x = pi.ident.to_string();
+                        let body = {
+                            let mut c = Collector { rw: self.rw, edits: vec![] };
+                            for st in &f.body.stmts {
+                                c.visit_stmt(st);
+                            }
+                            let edits = std::mem::take(&mut c.edits);
+                            let r = f.body.brace_token.span.open().byte_range().end..f.body.brace_token.span.close().byte_range().start;
+                            apply_edits(self.rw.src, r, edits)
+                        };
+                        let mut t = String::new();
+                        for el in &arr.elems {
+                            let v = self.render(el);
+                            t.push_str(&format!("{{ let {x} = {v}; {body} }}\n"));
+                        }
+                        self.rw.log.push(format!("R50 for {x} in [{} elements] -> unrolled", arr.elems.len()));
+                        self.edits.push(Edit { range: rng(e), text: t, prio: 0 });
+                        return;
                     }
                 }
                 self.loop_native(Some(&f.expr), &f.body, Some(rng(e).start));
@@ -1576,7 +1657,10 @@ impl<'r, 'a> Collector<'r, 'a> {
         let coll = is_method(&init.expr, "collect")?;
         let copied = is_method(&coll.receiver, "copied")?;
         let flt = is_method(&copied.receiver, "filter")?;
-        let keys = is_method(&flt.receiver, "keys")?;
+        let (keys, refs_fn) = match is_method(&flt.receiver, "keys") {
+            Some(k) => (k, "__map_key_refs"),
+            None => (is_method(&flt.receiver, "iter")?, "__idset_refs"),
+        };
         let cl = match flt.args.get(0) {
             Some(syn::Expr::Closure(c)) => c,
             _ => return None,
@@ -1593,8 +1677,8 @@ impl<'r, 'a> Collector<'r, 'a> {
         let pat = self.rw.text(&cl.inputs[0]).to_string();
         let map = self.render(&keys.receiver);
         let body = self.render(&cl.body);
-        self.rw.log.push(format!("R33 let {name} = M.keys().filter(..).copied().collect() -> loop {key} over __map_key_refs"));
-        Some(format!("let __keys_{name} = __map_key_refs(&{map}); let mut {name}: {vec_ty} = Vec::new(); for {pat} in {iter}__keys_{name}.iter() {hdr}{{ {bs}if {body} {{ {name}.push(**{pat}); }} {be}}}"))
+        self.rw.log.push(format!("R33 let {name} = M.keys() / S.iter() .filter(..).copied().collect() -> loop {key} over {refs_fn}"));
+        Some(format!("let __keys_{name} = {refs_fn}(&{map}); let mut {name}: {vec_ty} = Vec::new(); for {pat} in {iter}__keys_{name}.iter() {hdr}{{ {bs}if {body} {{ {name}.push(**{pat}); }} {be}}}"))
     }
 
     /// R3f: `let x: Vec<T> = ITER.filter(CL).cloned().collect();`
